@@ -192,18 +192,16 @@ func vfC13E2EHandler(addr string) func(nc *vfNodeConn, f *vfFrame, q *vfRequest)
 			nc.Reply(f, vfOpError, vfErrorBody(0x1000, msg, func(w *vfW) { cl(w).Int(2).Int(1) }))
 		case "unavail_dead":
 			nc.Reply(f, vfOpError, vfErrorBody(0x1000, msg, func(w *vfW) { cl(w).Int(2).Int(0) }))
-		case "wt_simple_recv":
-			nc.Reply(f, vfOpError, vfErrorBody(0x1100, msg, func(w *vfW) { cl(w).Int(1).Int(2).String("SIMPLE") }))
-		case "wt_simple_none":
-			nc.Reply(f, vfOpError, vfErrorBody(0x1100, msg, func(w *vfW) { cl(w).Int(0).Int(2).String("BATCH") }))
-		case "wt_unlogged":
-			nc.Reply(f, vfOpError, vfErrorBody(0x1100, msg, func(w *vfW) { cl(w).Int(0).Int(2).String("UNLOGGED_BATCH") }))
-		case "wt_cas":
-			nc.Reply(f, vfOpError, vfErrorBody(0x1100, msg, func(w *vfW) { cl(w).Int(1).Int(2).String("CAS") }))
 		case "read_timeout":
 			nc.Reply(f, vfOpError, vfErrorBody(0x1200, msg, func(w *vfW) { cl(w).Int(1).Int(2).Byte(0) }))
-		default: // overloaded: scripted classes e_* and "overloaded"
-			nc.Reply(f, vfOpError, vfErrorBody(0x1001, msg, nil))
+		case "read_timeout_data":
+			nc.Reply(f, vfOpError, vfErrorBody(0x1200, msg, func(w *vfW) { cl(w).Int(1).Int(2).Byte(1) }))
+		default:
+			if wire, recv, ok := vfC13ParseWt(class); ok { // WRITE_TIMEOUT <cl><received><blockfor><write type>
+				nc.Reply(f, vfOpError, vfErrorBody(0x1100, msg, func(w *vfW) { cl(w).Int(int32(recv)).Int(2).String(wire) }))
+			} else { // overloaded: scripted classes e_* and "overloaded"
+				nc.Reply(f, vfOpError, vfErrorBody(0x1001, msg, nil))
+			}
 		}
 		return true
 	}
@@ -297,6 +295,32 @@ func (w *vfC13E2ERT) GetRetryType(err error) RetryType {
 	return d
 }
 
+// vfC13E2EDefaultRT is the SESSION's default retry policy (ClusterConfig.RetryPolicy): the real
+// SimpleRetryPolicy{NumRetries: 3}, observed like the statements' own policies.  Statements keep it,
+// replace it with their own through Query/Batch.RetryPolicy, or switch retrying off with RetryPolicy(nil).
+type vfC13E2EDefaultRT struct {
+	real RetryPolicy
+	cur  sync.Map // goroutine -> *vfC13E2ERun of its latest Attempt call
+}
+
+func (w *vfC13E2EDefaultRT) Attempt(q RetryableQuery) bool {
+	v, ok := vfC13E2EByStmt.Load(q)
+	if !ok {
+		return w.real.Attempt(q)
+	}
+	r := v.(*vfC13E2ERun)
+	w.cur.Store(vfC13Gid(), r)
+	return (&vfC13E2ERT{r: r, real: w.real}).Attempt(q)
+}
+
+func (w *vfC13E2EDefaultRT) GetRetryType(err error) RetryType {
+	v, ok := w.cur.Load(vfC13Gid())
+	if !ok {
+		return w.real.GetRetryType(err)
+	}
+	return (&vfC13E2ERT{r: v.(*vfC13E2ERun), real: w.real}).GetRetryType(err)
+}
+
 // TestVfC13E2E: VF_NSTMTS statements through a real Session over 4 scripted nodes -> VF_TRACES.
 func TestVfC13E2E(t *testing.T) {
 	if os.Getenv("VF_TRACES") == "" {
@@ -325,6 +349,7 @@ func TestVfC13E2E(t *testing.T) {
 	cfg := vfClusterConfig(d, 4, "10.0.0.1")
 	cfg.Timeout = 5 * time.Second
 	cfg.PoolConfig.HostSelectionPolicy = &vfC13E2EPolicy{HostSelectionPolicy: RoundRobinHostPolicy()}
+	cfg.RetryPolicy = &vfC13E2EDefaultRT{real: &SimpleRetryPolicy{NumRetries: 3}}
 	s, err := NewSession(*cfg)
 	if err != nil {
 		t.Fatalf("session: %v", err)
@@ -367,7 +392,7 @@ func TestVfC13E2E(t *testing.T) {
 		// was launched and while all nodes are silent: the call must return all the same
 		scen := []string{"plain", "plain", "plain", "plain", "deadline", "specnonidem", "spec", "spec-cancel"}[rng.Intn(8)]
 		r.scen = scen
-		pols := []string{"none", "simple", "expo", "downgrade", "script"}
+		pols := []string{"none", "simple", "expo", "downgrade", "script", "default"}
 		r.polName = pols[rng.Intn(len(pols))]
 		var real RetryPolicy
 		switch r.polName {
@@ -383,6 +408,8 @@ func TestVfC13E2E(t *testing.T) {
 				}
 			}
 			real = p
+		case "default": // the statement keeps the session default, SimpleRetryPolicy{3}
+			cfgm.Polkind, cfgm.Poln = "budget", 3
 		default:
 			cfgm.Polkind = "budget"
 			cfgm.Poln = rng.Intn(4)
@@ -405,8 +432,16 @@ func TestVfC13E2E(t *testing.T) {
 				r.classes[k] = "overloaded"
 			}
 		}
+		// how the statement gets its retry policy: its own through the setter / RetryPolicy(nil): none /
+		// no call: the session default
 		var rt RetryPolicy
-		if real != nil {
+		setter := "own"
+		switch {
+		case r.polName == "default":
+			setter, r.polName = "default", "simple"
+		case real == nil:
+			setter = "nil"
+		default:
 			rt = &vfC13E2ERT{r: r, real: real}
 		}
 		stmt := []string{"query", "batch"}[rng.Intn(2)]
@@ -448,7 +483,10 @@ func TestVfC13E2E(t *testing.T) {
 		entries := ""
 		if stmt == "query" {
 			// idempotence comes from the real statement: Query.Idempotent
-			q := s.Query(text).RetryPolicy(rt).Idempotent(cfgm.Idem).Consistency(Quorum).WithContext(ctx)
+			q := s.Query(text).Idempotent(cfgm.Idem).Consistency(Quorum).WithContext(ctx)
+			if setter != "default" {
+				q.RetryPolicy(rt) // rt is the nil interface for "nil"
+			}
 			if spec != nil {
 				q.SetSpeculativeExecutionPolicy(spec)
 			}
@@ -466,8 +504,7 @@ func TestVfC13E2E(t *testing.T) {
 				b.Entries[k].Stmt = fmt.Sprintf("%s e%d", text, k)
 			}
 			b.Cons = Quorum
-			b.rt = nil
-			if rt != nil {
+			if setter != "default" {
 				b.RetryPolicy(rt)
 			}
 			if spec != nil {
@@ -565,7 +602,7 @@ func TestVfC13E2E(t *testing.T) {
 			r.offered = append(r.offered, "ok")
 		}
 		begin := vfC13Begin{Ev: "begin", Id: id, Hosts: r.offered, Polkind: cfgm.Polkind, Poln: cfgm.Poln, Allow: cfgm.Allow,
-			K: cfgm.K, Idem: cfgm.Idem, Policy: r.polName, Mode: "e2e:" + scen, Stmt: stmt, Obs: observer, Entries: entries, Wire: true}
+			K: cfgm.K, Idem: cfgm.Idem, Policy: r.polName, Mode: "e2e:" + scen, Stmt: stmt, Obs: observer, Entries: entries, Wire: true, Setter: setter}
 		vfC13Write(w, begin, r.log)
 		sum := vfC13Summary{Id: id, Mode: "e2e", Policy: r.polName, Events: len(r.log)}
 		r.mu.Unlock()
